@@ -127,6 +127,12 @@ Theorem C14_report_produced : forall T i acs, tables_ok T = true -> append_ok T 
   exists out, tax_report T i = Ok out.
 Proof. intros T i acs H A. exact (tax_report_total T (tables_ok_good T H) A i acs). Qed.
 
+(** and in a produced report every data sheet passes [sheet_ok]: the template's cells and every fraction row lie
+    inside the sheet as sized by the [append_rows] calls (rows first .. first + n - 1 for n fractions) *)
+Theorem C14_data_sheets_within_capacity : forall T i out, tables_ok T = true -> append_ok T -> tax_report T i = Ok out ->
+  forall s, In s out -> is_legend s = false -> sheet_ok s = true.
+Proof. intros T i out H A. exact (data_sheets_within_capacity T (tables_ok_good T H) A i out). Qed.
+
 (** the same for the two plugins, for inputs whose taxable events have types a taxable event can have;
     the IE instance needs the IE map to be total (finding F4) *)
 Theorem C14_us_report_produced : forall i acs,
@@ -163,5 +169,6 @@ Print Assumptions C14_ie_lost_refuted.
 Print Assumptions C14_us_append_rows_sufficient.
 Print Assumptions C14_ie_append_rows_sufficient.
 Print Assumptions C14_report_produced.
+Print Assumptions C14_data_sheets_within_capacity.
 Print Assumptions C14_us_report_produced.
 Print Assumptions C14_ie_report_produced.
